@@ -49,9 +49,15 @@ def canon_idx(i):
     if i is None:
         return "N"
     if isinstance(i, slice):
-        assert i.step is None
-        return f"{i.start}..{i.stop}"
+        if i.step is None and i.start is not None and i.stop is not None:
+            return f"{i.start}..{i.stop}"
+        return "..".join("N" if x is None else str(x) for x in (i.start, i.stop, i.step))
     return str(i)
+
+
+def oi(s):
+    """an optional int on a protocol line (N = None)"""
+    return None if s == "N" else int(s)
 
 
 def parse_ints(s):
@@ -275,6 +281,10 @@ class SigImpl:
                         del lst[int(w[2])]
                     elif k == "ldelslice":
                         del lst[int(w[2]):int(w[3])]
+                    elif k == "lsetslicex":
+                        lst[slice(oi(w[2]), oi(w[3]), oi(w[4]))] = parse_ints(w[5])
+                    elif k == "ldelslicex":
+                        del lst[slice(oi(w[2]), oi(w[3]), oi(w[4]))]
                     elif k == "linsert":
                         lst.insert(int(w[2]), int(w[3]))
                     elif k == "lappend":
@@ -352,8 +362,15 @@ def gen_list_op(R, nm, shadow):
     def vals():
         return [val() for _ in range(R.choice([0, 1, 2, 2, 3]))]
 
+    def oidx():
+        return "N" if R.random() < 0.3 else str(idx())
+
+    def slc():
+        """slice(A, B, C): open bounds, steps -3..3 (0 is rejected), mostly a step other than 1"""
+        return f"{oidx()} {oidx()} {R.choice(['N', '1', '2', '2', '3', '-1', '-1', '-2', '-3', '0'])}"
+
     k = R.choice(["lassign", "lset", "lsetslice", "ldel", "ldelslice", "linsert", "lappend", "lappend", "lpop", "lremove",
-                  "lextend", "liadd", "lreverse", "lclear", "lset", "ldel", "lpop"])
+                  "lextend", "liadd", "lreverse", "lclear", "lset", "ldel", "lpop", "lsetslicex", "ldelslicex"])
     if d is None and R.random() < 0.85:
         k = "lassign"
     if k == "lassign":
@@ -368,6 +385,15 @@ def gen_list_op(R, nm, shadow):
         return f"ldel {nm} {i}"
     if k == "ldelslice":
         return f"ldelslice {nm} {idx()} {idx()}"
+    if k == "ldelslicex":
+        return f"ldelslicex {nm} {slc()}"
+    if k == "lsetslicex":
+        sl = slc()
+        a, b, c = (oi(x) for x in sl.split())
+        want = len(range(*slice(a, b, c).indices(ln))) if c != 0 else 0
+        # an extended slice takes exactly as many items as it selects: mostly that many, sometimes not (rejected)
+        m = want if R.random() < 0.8 else R.choice([0, 1, 2, 3])
+        return f"lsetslicex {nm} {sl} {ints_arg([val() for _ in range(m)])}"
     if k == "linsert":
         return f"linsert {nm} {idx()} {val()}"
     if k == "lappend":
@@ -407,6 +433,10 @@ def shadow_apply(shadow, line):
             del d[int(w[2])]
         elif k == "ldelslice":
             del d[int(w[2]):int(w[3])]
+        elif k == "lsetslicex":
+            d[slice(oi(w[2]), oi(w[3]), oi(w[4]))] = parse_ints(w[5])
+        elif k == "ldelslicex":
+            del d[slice(oi(w[2]), oi(w[3]), oi(w[4]))]
         elif k == "linsert":
             d.insert(int(w[2]), int(w[3]))
         elif k == "lappend":
@@ -707,20 +737,20 @@ def _apply_replica(d, ty, old, new, idx):
             if new != "N":
                 return "new should be None"
             if ".." in idx:
-                a, b = map(int, idx.split(".."))
-                if old != fmt_ints(d[a:b]):
-                    return f"old payload {old}, removed items were {fmt_ints(d[a:b])}"
-                del d[a:b]
+                sl = slice(*(oi(x) for x in idx.split("..")))
+                if old != fmt_ints(d[sl]):
+                    return f"old payload {old}, removed items were {fmt_ints(d[sl])}"
+                del d[sl]
             else:
                 if old != str(d[int(idx)]):
                     return f"old payload {old}, removed item was {d[int(idx)]}"
                 del d[int(idx)]
         elif ty == "replace":
             if ".." in idx:
-                a, b = map(int, idx.split(".."))
-                if old != fmt_ints(d[a:b]):
-                    return f"old payload {old}, replaced items were {fmt_ints(d[a:b])}"
-                d[a:b] = L(new)
+                sl = slice(*(oi(x) for x in idx.split("..")))
+                if old != fmt_ints(d[sl]):
+                    return f"old payload {old}, replaced items were {fmt_ints(d[sl])}"
+                d[sl] = L(new)
             else:
                 if old != str(d[int(idx)]):
                     return f"old payload {old}, replaced item was {d[int(idx)]}"
